@@ -1,11 +1,16 @@
 // C05 — requests are isolated from each other despite context pooling.
 //
 // History search with a differential oracle, on the real code at wire level:
-// every sequence of <= D preceding requests from a 25-letter alphabet (each on the
+// every sequence of <= D preceding requests from a 34-letter alphabet (each on the
 // same keep-alive connection or on a new one) is sent to a fresh application through
-// app.Server().ServeConn, followed by one of 14 probe requests whose handler records
+// app.Server().ServeConn, followed by one of 23 probe requests whose handler records
 // the full observation vector. The observation and the raw response bytes must equal
 // those of the same probe sent as the very first request to a fresh application.
+//
+// Besides the pooled per-request objects, the alphabet covers response helpers that keep
+// state in the APPLICATION: a family of SendFile routes whose configurations differ from a
+// base configuration in exactly one field each (app.sendfiles memoises one file handler +
+// Cache-Control value per configuration); every member is a history letter and a probe.
 //
 // Pooled-object reuse is made deterministic: worker processes run with GOMAXPROCS=1,
 // all pools are emptied (runtime.GC() twice) before every execution and the collector
@@ -123,10 +128,37 @@ func flat(r *traceResult, idx int) map[string]string {
 	}
 	m["observations"] = fmt.Sprint(len(r.Obs[idx]))
 	m["response.raw"] = fmt.Sprintf("%q", r.Resp[idx])
+	for k, v := range respHeaders(r.Resp[idx]) {
+		m["resphdr."+k] = v
+	}
 	if r.PanicAt == idx {
 		m["panic"] = r.PanicMsg
 	}
 	return m
+}
+
+// respHeaders splits the header block of a raw response (names as written by the server;
+// repeated headers joined). It only refines the classification of a response difference:
+// the raw bytes are compared as a whole in any case.
+func respHeaders(resp []byte) map[string]string {
+	out := map[string]string{}
+	end := bytes.Index(resp, []byte("\r\n\r\n"))
+	if end < 0 {
+		return out
+	}
+	lines := strings.Split(string(resp[:end]), "\r\n")
+	for _, ln := range lines[1:] {
+		i := strings.Index(ln, ": ")
+		if i <= 0 {
+			continue
+		}
+		k, v := ln[:i], fmt.Sprintf("%q", ln[i+2:])
+		if old, ok := out[k]; ok {
+			v = old + "," + v
+		}
+		out[k] = v
+	}
+	return out
 }
 
 func diffKeys(a, b map[string]string) []string {
@@ -177,6 +209,10 @@ func category(key string) string {
 		return "response-state-at-entry"
 	case key == "response.raw":
 		return "response-bytes"
+	case key == "resphdr.Content-Length":
+		return "response-bytes" // follows from the body
+	case strings.HasPrefix(key, "resphdr."):
+		return "response-header(" + key[len("resphdr."):] + ")"
 	case key == "where" || key == "error" || key == "observations":
 		return "dispatch"
 	case key == "panic":
@@ -212,30 +248,71 @@ func statusOf(resp []byte) string {
 
 type checker struct {
 	l        *core.Local
-	baseline [][]map[string]string // [cfg][probe]
+	baseline [][]string // [cfg][probe]: packed observation of the probe on a fresh application (see pack)
 	memo     map[string]rerun
 	culprits map[string]culprit
 }
 
-func (ck *checker) computeBaseline() [][]map[string]string {
-	out := make([][]map[string]string, len(cfgNames))
+// pack renders an observation as ONE string (sorted, length-prefixed key/value pairs). The
+// fresh-application observations stay live for the whole run, and every pool flush is two
+// full collections: a few strings are cheaper to mark than a few thousand map entries.
+func pack(m map[string]string) string {
+	keys := make([]string, 0, len(m))
+	for k := range m {
+		keys = append(keys, k)
+	}
+	sort.Strings(keys)
+	var sb strings.Builder
+	for _, k := range keys {
+		fmt.Fprintf(&sb, "%d:%s%d:%s", len(k), k, len(m[k]), m[k])
+	}
+	return sb.String()
+}
+
+func unpack(s string) map[string]string {
+	m := map[string]string{}
+	next := func() string {
+		i := strings.IndexByte(s, ':')
+		var n int
+		fmt.Sscan(s[:i], &n)
+		v := s[i+1 : i+1+n]
+		s = s[i+1+n:]
+		return v
+	}
+	for len(s) > 0 {
+		k := next()
+		m[k] = next()
+	}
+	return m
+}
+
+// diffBase: the keys in which observation f differs from the fresh-application observation.
+func (ck *checker) diffBase(cfg, probe int, f map[string]string) []string {
+	if pack(f) == ck.baseline[cfg][probe] {
+		return nil
+	}
+	return diffKeys(f, unpack(ck.baseline[cfg][probe]))
+}
+
+func (ck *checker) computeBaseline() [][]string {
+	out := make([][]string, len(cfgNames))
 	for c := range cfgNames {
-		out[c] = make([]map[string]string, len(probes))
+		out[c] = make([]string, len(probes))
 		for p, pr := range probes {
 			r := runTrace(c, [][]byte{pr.Raw}, []bool{true})
 			if r.PanicAt >= 0 {
 				core.Fatal("baseline probe %s panics on a fresh app (cfg %s): %s", pr.Name, cfgNames[c], r.PanicMsg)
 			}
-			out[c][p] = flat(r, 0)
+			out[c][p] = pack(flat(r, 0))
 		}
 	}
 	return out
 }
 
-func sameBaseline(a, b [][]map[string]string) string {
+func sameBaseline(a, b [][]string) string {
 	for c := range a {
 		for p := range a[c] {
-			if d := diffKeys(a[c][p], b[c][p]); len(d) > 0 {
+			if d := diffKeys(unpack(a[c][p]), unpack(b[c][p])); len(d) > 0 {
 				return fmt.Sprintf("cfg=%s probe=%s keys=%v", cfgNames[c], probes[p].Name, d)
 			}
 		}
@@ -289,7 +366,7 @@ func (ck *checker) violatesFresh(cfg int, hist []step, probe int, probeNew bool)
 		return rerun{}
 	}
 	f := flat(r, len(hist))
-	d := diffKeys(f, ck.baseline[cfg][probe])
+	d := ck.diffBase(cfg, probe, f)
 	v := rerun{Diff: d, Obs: map[string]string{}}
 	for _, k := range d {
 		v.Obs[k] = f[k]
@@ -398,7 +475,7 @@ func (ck *checker) culpritInfo(cfg int, hist []step, probeNew bool) culprit {
 }
 
 // check runs one trace and compares the probe with the fresh run. flush=false is used for
-// the 2nd..14th probe of the longest histories: the application is fresh, only the
+// the 2nd..last probe of the longest histories: the application is fresh, only the
 // process-global pools still hold what the previous trace (same history, previous probe)
 // released; every difference found that way is re-examined after a full flush.
 func (ck *checker) check(cfg int, hist []step, probe int, probeNew, flush bool) {
@@ -427,7 +504,7 @@ func (ck *checker) check(cfg int, hist []step, probe int, probeNew, flush bool) 
 		l.Add("traces_with_several_connections", 1)
 	}
 	f := flat(r, pi)
-	d := diffKeys(f, ck.baseline[cfg][probe])
+	d := ck.diffBase(cfg, probe, f)
 	l.Outcome(fmt.Sprintf("probe=%s status=%s equal-to-fresh=%v", probes[probe].Name, statusOf(r.Resp[pi]), len(d) == 0))
 	if len(hist) >= 2 && hist[0].L == 7 && hist[0].L != hist[1].L && probe == (hist[1].L+len(hist))%len(probes) && cfg == hist[1].L%3 {
 		var hs []string
@@ -471,8 +548,9 @@ func (ck *checker) check(cfg int, hist []step, probe int, probeNew, flush bool) 
 		}
 	}
 	expd := map[string]string{}
+	fresh := unpack(ck.baseline[cfg][probe])
 	for _, k := range mv.Diff {
-		expd[k] = ck.baseline[cfg][probe][k]
+		expd[k] = fresh[k]
 	}
 	l.Violate(sig,
 		"a probe request observes (or answers with) something that depends on the requests served before it: its observation vector / response bytes differ from the same probe sent first to a fresh application",
@@ -506,7 +584,7 @@ var fullPatternDepth = 2
 func main() {
 	r := core.Start("C05")
 	depth := 2
-	budget := 50 * time.Second
+	budget := 65 * time.Second
 	if !r.Quick() {
 		depth = 3
 		budget = 14 * time.Minute
@@ -523,6 +601,16 @@ func main() {
 
 	if r.IsWorker() {
 		worker(r, depth)
+		return
+	}
+	if os.Getenv("C05_DUMP") != "" {
+		// development aid: the fresh-application response of every probe
+		debug.SetGCPercent(-1)
+		buildAlphabets()
+		for _, p := range probes {
+			fmt.Printf("--- %s\n%q\n=> %q\n", p.Name, p.Raw, runRaw(0, p.Raw))
+		}
+		cleanupFiles()
 		return
 	}
 
@@ -560,26 +648,76 @@ func main() {
 			"transitions":                   c["transitions"],
 			"traces_validated_against_impl": c["traces"],
 			"bounds": map[string]any{
-				"max_preceding_requests": depth,
-				"history_alphabet":       hnames,
-				"probes":                 pnames,
-				"configs":                cfgNames,
-				"connection_choice":      fmt.Sprintf("histories of <= %d requests: every request after the first on the same keep-alive connection | on a new connection (all 2^n patterns); longer histories: preceding requests all on one connection | one connection each, probe pipelined | on a new connection", fullPatternDepth),
-				"workers":                nw,
+				"max_preceding_requests":   depth,
+				"history_alphabet":         hnames,
+				"probes":                   pnames,
+				"configs":                  cfgNames,
+				"connection_choice":        fmt.Sprintf("histories of <= %d requests: every request after the first on the same keep-alive connection | on a new connection (all 2^n patterns); longer histories: preceding requests all on one connection | one connection each, probe pipelined | on a new connection", fullPatternDepth),
+				"workers":                  nw,
+				"application_state_family": appFamilyNotes(),
 			},
 			"rule": "states = distinct (config, history, connection pattern) triples; transitions = requests served through ServeConn in compared traces; a trace = history + probe served by a fresh application (pool flush: see assumptions), whose probe observation vector and raw response bytes are compared key by key with the same probe sent first to a fresh application after a pool flush",
 		},
 		Assumptions: []string{
-			fmt.Sprintf("pool flush (runtime.GC() x2) before every trace with <= %d preceding requests; for longer histories before the first of the 14 probe traces of a (config, history, connection pattern) — the other 13 run on a fresh application but with the process-global pools as the previous trace left them, and any difference found is re-run after a flush", fullPatternDepth),
+			fmt.Sprintf("pool flush (runtime.GC() x2) before every trace with <= %d preceding requests (exception: after 2 or more preceding requests, traces whose probe or history contains a letter of the application-state family follow the rule for longer histories); for longer histories before the first of the %d probe traces of a (config, history, connection pattern) — the others run on a fresh application but with the process-global pools as the previous trace left them, and any difference found is re-run after a flush", fullPatternDepth, len(probes)),
 			"sequential histories only (one request at a time, GOMAXPROCS=1, GC off during a trace so pooled objects are reused deterministically); concurrent mixes are not explored by this check",
 			"wire level through app.Server().ServeConn on an in-memory connection that delivers one request per read; fasthttp's worker pool (goroutine reuse) is bypassed, its RequestCtx pool and fiber's ctx/redirect/binder pools are real",
 			"Date header disabled (Config.DisableDefaultDate); no Server header",
 			"flash-cookie array headers are kept small enough not to exhaust memory (C12 covers allocation)",
+			"SendFile letters: every configuration of the family has CacheDuration < 0 (no fasthttp file cache, no cleaner goroutine per application); one small file with a fixed modification time in a directory private to the worker process; the fields varied one at a time are MaxAge (two values), Download, ByteRange, Compress and FS",
 			"the oracle is differential: it has no opinion on what the right observation is, only that it must not depend on the history",
 		},
 		MinOutcomes: 4,
 	}
+	cleanupFiles()
 	r.Finish(ev)
+}
+
+// flushBefore: is the trace (history h, probe p) preceded by a pool flush? Always for the
+// first probe of a (config, history, connection pattern); for the other probes when the
+// history is short — except after 2 or more preceding requests when the probe or one of the
+// history letters belongs to the application-state family: those traces follow the rule of
+// the longest histories (fresh application, process-global pools as the previous trace of the
+// same state left them; a difference found that way is re-examined after a flush, see check).
+func flushBefore(h []int, p int) bool {
+	if p == 0 {
+		return true
+	}
+	if len(h) > fullPatternDepth {
+		return false
+	}
+	if len(h) >= 2 && (probes[p].App || anyApp(h)) {
+		return false
+	}
+	return true
+}
+
+func appFamilyNotes() []string {
+	var out []string
+	for _, l := range historyAlphabet {
+		if l.App {
+			out = append(out, l.Name+": "+l.Note)
+		}
+	}
+	return out
+}
+
+func anyApp(h []int) bool {
+	for _, l := range h {
+		if historyAlphabet[l].App {
+			return true
+		}
+	}
+	return false
+}
+
+func allApp(h []int) bool {
+	for _, l := range h {
+		if !historyAlphabet[l].App {
+			return false
+		}
+	}
+	return len(h) > 0
 }
 
 func worker(r *core.Run, depth int) {
@@ -593,7 +731,13 @@ func worker(r *core.Run, depth int) {
 	hists := enumHistories(depth)
 	// shorter histories first (for every configuration), so that a run stopped by the
 	// wall-clock cap is still complete for the shorter ones
-	sort.SliceStable(hists, func(i, j int) bool { return len(hists[i]) < len(hists[j]) })
+	// (among equals: the histories made of application-state letters only come first, they are few)
+	sort.SliceStable(hists, func(i, j int) bool {
+		if len(hists[i]) != len(hists[j]) {
+			return len(hists[i]) < len(hists[j])
+		}
+		return allApp(hists[i]) && !allApp(hists[j])
+	})
 	item := 0
 	capped := false
 	cappedAt := 0
@@ -628,7 +772,7 @@ outer:
 				ck.l.Add("states", 1)
 				ck.l.Add(fmt.Sprintf("states_with_%d_preceding", n), 1)
 				for p := range probes {
-					ck.check(cfg, hist, p, probeNew, n <= fullPatternDepth || p == 0)
+					ck.check(cfg, hist, p, probeNew, flushBefore(h, p))
 				}
 			}
 		}
@@ -639,6 +783,7 @@ outer:
 	if d := sameBaseline(ck.baseline, ck.computeBaseline()); d != "" {
 		core.Fatal("fresh-app observation drifted during the run: %s", d)
 	}
+	cleanupFiles()
 	r.Merge(ck.l.P)
 	r.FinishWorker()
 }
